@@ -708,7 +708,15 @@ class MarkdownNormalizer(Renderer):
         lines.append(f"| {' | '.join(normalized_delimiters)} |\n")
         for row in body:
             lines.append(self.render(row))
-        return "".join(lines)
+
+        # A table is a block like any other: inside a quote, list item or footnote every
+        # line needs the container prefix, otherwise the table falls out of its container.
+        prefixed: list[str] = []
+        for i, line in enumerate("".join(lines).split("\n")[:-1]):
+            prefix = self._prefix if i == 0 else self._second_prefix
+            prefixed.append(f"{prefix}{line}\n")
+        self._prefix = self._second_prefix
+        return "".join(prefixed)
 
     def render_table_row(self, element: gfm_elements.TableRow) -> str:
         """Render a row within a GFM table."""
